@@ -75,6 +75,20 @@ CLAIMS = {
              "checked on every explored input, not proved. Trusted: Lean kernel, translator, harness `pipeline`, generators.",
         technique="Lean 4 proof (fuel monotonicity, depth bound by inversion, error theorems) + translator + isolated-worker differential outcome classes and growth measurement",
         ref="DESIGN.md section 6 C03"),
+    "C11": dict(
+        text="Kernel-checked characterisation (all literals, all entity tables) of the normalisation model: literal tab/CR/LF "
+             "become spaces and nothing else changes, a character reference contributes the referenced character verbatim (also "
+             "inside entities), entity references expand recursively, tokenized types give exactly the CDATA result with leading/"
+             "trailing spaces dropped and runs collapsed (collapsed form characterised, idempotent, other characters kept in "
+             "order), the attribute list of an element is exactly written + defaulted-and-not-written (flags as stated), "
+             "#IMPLIED/#REQUIRED never supply one, every ATTLIST of the element type is consulted and the first definition of a "
+             "name binds. Tie: systematic type x default-kind x literal grid and random mixtures, observed through the info view "
+             "and the DOM view, against the model and against an independent python transcription of 3.3.3/3.3.2.",
+        note="Trusted: Lean kernel; the hand-written model AttrNorm.lean (agreement with the code established on the cases of "
+             "each run); harness `attrs`; python oracle. Known finding required-default (pinned by the suite). Literal CR LF "
+             "pairs and entity chains deeper than the library's limit (64) are outside the generated space.",
+        technique="Lean 4 proof (list induction on the normalisation model) + differential correspondence + independent oracle",
+        ref="DESIGN.md section 6 C11"),
 }
 
 PENDING_REASON = "check not built yet (work in progress; see DESIGN.md section 10 build order)"
